@@ -119,6 +119,15 @@ inline Op opParamBad(const std::string& grp, bool named, bool typed) {   // part
     };
     return o;
 }
+inline Op opParamFromStored(const std::string& grp, const Limits& L) {
+    Op o; o.name = "param(" + grp + " <- ref to stored POINT:USED)"; o.cls = "param(self)";
+    o.enabled = [grp, L](const World&, const WSnap& s) { const GSnap* g = s.o.group(grp); if (!g) return s.o.groups.size() < L.maxGroups + 4; return true; };
+    o.apply = [grp](World& w, const WSnap& s, CallInfo& ci) {
+        ci.kind = K_PARAM; ci.group = grp; const Param& ref = w.c->parameters().group("POINT").parameter("USED"); ci.givenParam = *s.o.group("POINT")->find("USED");
+        w.c->parameter(grp, ref);
+    };
+    return o;
+}
 inline Op opLock(const std::string& grp, bool lock) {
     Op o; o.name = std::string(lock ? "lockGroup(" : "unlockGroup(") + grp + ")"; o.cls = lock ? "lockGroup" : "unlockGroup";
     o.enabled = [grp, lock](const World&, const WSnap& s) { const GSnap* g = s.o.group(grp); return !g || g->locked != lock; };
@@ -297,13 +306,13 @@ inline Op opPrint() {
 inline Op opRegBuild(int r, int vs) {
     Op o; o.name = "R" + std::to_string(r) + "=build(v" + std::to_string(vs) + ")"; o.cls = "reg.build";
     o.enabled = [](const World&, const WSnap& s) { Shape sh = declaredShape(s.o); return !(sh.pts.empty() && sh.nsub == 0); };
-    o.apply = [r, vs](World& w, const WSnap& s, CallInfo& ci) { ci.kind = K_REG_BUILD; ci.reg = r; w.R[r] = buildFrame(declaredShape(s.o), vs); w.Rset[r] = true; ci.given = intendedFrame(declaredShape(s.o), vs); ci.dev = "intent"; };
+    o.apply = [r, vs](World& w, const WSnap& s, CallInfo& ci) { ci.kind = K_REG_BUILD; ci.reg = r; w.heldPts[r] = nullptr; w.R[r] = buildFrame(declaredShape(s.o), vs); w.Rset[r] = true; ci.given = intendedFrame(declaredShape(s.o), vs); ci.dev = "intent"; };
     return o;
 }
 inline Op opRegCopy(int r, int from) {   // R1 = R0 (C++ copy of a Frame: what a user does when reusing a frame object)
     Op o; o.name = "R" + std::to_string(r) + "=R" + std::to_string(from); o.cls = "reg.copy";
     o.enabled = [from](const World& w, const WSnap&) { return w.Rset[from]; };
-    o.apply = [r, from](World& w, const WSnap&, CallInfo& ci) { ci.kind = K_REG_BUILD; ci.reg = r; w.R[r] = w.R[from]; w.Rset[r] = true; };
+    o.apply = [r, from](World& w, const WSnap&, CallInfo& ci) { ci.kind = K_REG_BUILD; ci.reg = r; w.heldPts[r] = nullptr; w.R[r] = w.R[from]; w.Rset[r] = true; };
     return o;
 }
 inline Op opRegSubmit(int r, const std::string& tgt, const Limits& L) {
@@ -330,6 +339,19 @@ inline Op opRegMut(int r, const std::string& what) {   // what: px (x of point 0
         if (what == "px") w.R[r].points_nonConst().point_nonConst(0).x(-555.5f);
         else w.R[r].analogs_nonConst().subframe_nonConst(0).channel_nonConst(0).data(-666.5f);
     };
+    return o;
+}
+// the caller keeps the reference returned by points_nonConst() of ITS OWN frame, and later writes through it
+inline Op opRegHold(int r) {
+    Op o; o.name = "R" + std::to_string(r) + ".holdPointsRef"; o.cls = "reg.hold";
+    o.enabled = [r](const World& w, const WSnap& s) { return w.Rset[r] && !w.heldPts[r] && !s.reg[r].pts.empty(); };
+    o.apply = [r](World& w, const WSnap&, CallInfo& ci) { ci.kind = K_REG_MUT; ci.reg = r; w.heldPts[r] = &w.R[r].points_nonConst(); };
+    return o;
+}
+inline Op opRegMutHeld(int r) {
+    Op o; o.name = "R" + std::to_string(r) + ".mutThroughHeldRef"; o.cls = "reg.mut(held)";
+    o.enabled = [r](const World& w, const WSnap& s) { return w.Rset[r] && w.heldPts[r] && !s.reg[r].pts.empty() && s.reg[r].pts[0].v[1] != fbits(-444.5f); };
+    o.apply = [r](World& w, const WSnap&, CallInfo& ci) { ci.kind = K_REG_MUT; ci.reg = r; w.heldPts[r]->point_nonConst(0).y(-444.5f); };
     return o;
 }
 inline Op opRegExt(int r, const Limits& L) {   // caller appends a point to its own frame object
